@@ -313,7 +313,16 @@ func (a *Agent) SetTags(tags map[string]string) error {
 	}
 
 	// Set the tags in Serf, start gossiping out
-	return a.serf.SetTags(tags)
+	err := a.serf.SetTags(tags)
+	if err != nil && a.agentConf.TagsFile != "" {
+		// Serf may have rejected the tags (e.g. their encoding is too large), in
+		// which case the old ones stay in effect: make the file say what is in
+		// effect, so that a restart does not resurrect the rejected tags.
+		if werr := a.writeTagsFile(a.conf.Tags); werr != nil {
+			a.logger.Printf("[ERR] agent: %s", werr)
+		}
+	}
+	return err
 }
 
 // loadTagsFile will load agent tags out of a file and set them in the
